@@ -14,5 +14,10 @@ Definition r_frun := BridgeDefs.frun.
 Definition r_finit := BridgeDefs.finit.
 Definition r_show := Defs.show.
 Definition r_wfb := Defs.wfb.
+(* malformed text (Reader/Reject.v): the head of a file, the characters that start nothing, the header condition *)
+Definition r_head_text := Defs.head_text.
+Definition r_junk_head := Defs.junk_head.
+Definition r_header_okb := Defs.header_okb.
+Definition r_is_istart := Defs.is_istart.
 
-Extraction "pegreader.ml" r_fshow r_file_okb r_file_nodes r_fcalls r_frun r_finit r_show r_wfb.
+Extraction "pegreader.ml" r_fshow r_file_okb r_file_nodes r_fcalls r_frun r_finit r_show r_wfb r_head_text r_junk_head r_header_okb r_is_istart.
